@@ -2,7 +2,7 @@
    [plain e] is the matrix-algebra meaning of an expression, [build e] the object graph Python constructs with all
    shortcuts (A@Id, Id@A, 0+A, scalar 0/1, AdjointLinearOperator.H) and fused .gram rules; opeq = same sizes, same forward
    and adjoint values on every input. *)
-From MrVerif Require Import Base.Prelude Base.StarRing Base.Sums Model.OpAlg Model.ElemOps Model.Algebra
+From MrVerif Require Import Base.Prelude Base.StarRing Base.Sums Model.OpAlg Model.ElemOps Model.Algebra Model.Wavelet
   Proofs.OpAlgProofs Proofs.ElemOpsProofs Proofs.ElemOpsWf Proofs.AlgebraProofs Proofs.BlockAlgProofs.
 
 Theorem C04_sound : forall (R : StarRing) (eq0 eq1 : R -> bool),
@@ -62,6 +62,11 @@ Theorem C04_block_product : forall (R : StarRing) (A B C D E G : linop R), wf A 
     = fwd (vstack (lsum (comp A E) (comp B G)) (lsum (comp C E) (comp D G))) x i.
 Proof. exact block_column_product. Qed.
 Print Assumptions C04_block_product.
+(* LinearOperatorMatrix.from_diagonal: the block-diagonal operator equals the matrix with zero operators off the diagonal *)
+Theorem C04_block_diagonal : forall (R : StarRing) (A B : linop R),
+  opeq (bdiag A B) (vstack (hstack A (zeroop (R:=R) (dom B) (ran A))) (hstack (zeroop (R:=R) (dom A) (ran B)) B)).
+Proof. exact bdiag_as_blocks. Qed.
+Print Assumptions C04_block_diagonal.
 (* non-vacuity: identity blocks meet every hypothesis *)
 Example C04_block_example : forall R : StarRing, let I2 := idop (R:=R) 2 in wf I2 /\ dom I2 = ran I2.
 Proof. intros R I2. split; [apply idop_wf|reflexivity]. Qed.
